@@ -143,6 +143,7 @@ type hist struct {
 
 	maxOpenTypes    int
 	corrupted       bool // some stored proposal record was made undecodable
+	corruptIDs      map[uint64]bool
 	govSendExecuted bool
 	customTouched   bool
 	fails           []lib.Failure
@@ -1146,6 +1147,10 @@ func (h *hist) opCorrupt(pid uint64) {
 	h.stats["corrupt"]++
 	if err == nil {
 		h.corrupted = true
+		if h.corruptIDs == nil {
+			h.corruptIDs = map[uint64]bool{}
+		}
+		h.corruptIDs[pid] = true
 	}
 	o := h.record(fmt.Sprintf("GOp (OCorrupt %d)", pid), code)
 	h.monitor(o, "corrupt", err)
@@ -1312,7 +1317,14 @@ func (h *hist) opEndBlock(dt time.Duration) {
 		if spend {
 			sig = "C15:gov-account-spend:endblock-halts"
 		}
-		if h.corrupted {
+		// a history may contain both a corrupted record and a spend from the module account: the halt is
+		// attributed by its cause. A refund / burn that fails for lack of funds after a module-account
+		// spend is the C15-2 halt; the halts of the undecodable-record branches were `collections: not
+		// found` (stale queue entry) and a nil dereference
+		es := err.Error()
+		lacksFunds := strings.Contains(es, "insufficient funds")
+		decodeHalt := strings.Contains(es, "not found") || strings.Contains(es, "nil pointer") || strings.Contains(es, "invalid memory address") || strings.Contains(es, "panic")
+		if h.corrupted && !(spend && lacksFunds) && (decodeHalt || !spend) {
 			sig = "C15:undecodable-proposal:endblock-halts"
 		}
 		h.fail(sig, fmt.Sprintf("the end blocker returned an error, the block cannot be finalized: %v", err))
@@ -1417,7 +1429,7 @@ func (h *hist) monitor(o *obsT, op string, opErr error) {
 				w, ok := want[id]
 				if !ok || len(ks) != 1 || ks[0] != w {
 					qsig := "C15:queue-inconsistent"
-					if h.corrupted {
+					if h.corruptIDs[id] {
 						qsig = "C15:undecodable-proposal:stale-queue-entry"
 					}
 					h.fail(qsig, fmt.Sprintf("%s queue has entries %v for proposal %d (expected: %v at %d)", name, ks, id, ok, w))
